@@ -127,6 +127,9 @@ pub fn err_class(e: &WriteError) -> String {
     }
 }
 
+/// `max_batch_size` of the next database opened by `open_db`
+pub static MAX_BATCH: std::sync::atomic::AtomicUsize = std::sync::atomic::AtomicUsize::new(1_000_000);
+
 pub struct Cfg { pub nb: u16, pub segsize: usize, pub compression: bool, pub sync_ms: u64 }
 
 pub fn open_db(dir: &Path, cfg: &Cfg) -> Result<Database, String> {
@@ -140,7 +143,9 @@ pub fn open_db(dir: &Path, cfg: &Cfg) -> Result<Database, String> {
             .writer_threads(if cfg.nb >= 4 { 2 } else { cfg.nb })
             .sync_interval(Duration::from_millis(cfg.sync_ms))
             .sync_idle_interval(Duration::from_millis(cfg.sync_ms))
-            .max_batch_size(1_000_000)
+            // usually no inline sync (timer-driven acknowledgement); a third of the store histories use a
+            // batch size SMALLER than their transactions (see MAX_BATCH)
+            .max_batch_size(MAX_BATCH.load(std::sync::atomic::Ordering::Relaxed))
             .min_sync_bytes(usize::MAX / 2)
             .cache_capacity_bytes(4 * 1024 * 1024)
             .compression(cfg.compression)
